@@ -302,7 +302,9 @@ def classify_loop(loop):
         return ('infinite', 'no loop condition') if not _has_exit(body) else ('unknown', 'condition-less loop with an exit')
     c = _strip(cond)
     if c.get('kind') == 'IntegerLiteral':
-        if c.get('value') != '0' and not _has_exit(body):
+        if c.get('value') == '0':
+            return ('counter', 'constant-false condition: the do { } while (0) idiom runs its body once')
+        if not _has_exit(body):
             return ('infinite', 'constant-true condition and no exit')
         return ('unknown', 'constant condition')
     # take the first conjunct that is a comparison
